@@ -1,5 +1,5 @@
 (** Prop_C09.v -- C09: a response is sent only after its effects are committed. *)
-From MW Require Import Base Store Monad Usage Server Websocket Service Inv Obs StepFacts Corollaries Inst_Params.
+From MW Require Import Base Store Monad Usage Server Websocket Service Inv Obs StepFacts Corollaries Inst_Params CrashAck.
 Local Open Scope list_scope.
 
 (** for every configuration (listing, usage database, blur: any), every
@@ -33,3 +33,60 @@ Print Assumptions C09_nothing_pending_between_events.
 (** the repository's constants satisfy the hypothesis *)
 Example C09_nonvacuous : 0 < exp (gen_cfg true true None).
 Proof. exact (gen_cfg_exp true true None). Qed.
+
+(** * a crash right after an acknowledging frame loses nothing (quoted by type from CrashAck.v).  [crash_chan s k b]: the channel file the server boots on after dying at the k-th commit of b *)
+
+(** the committed database after an event is the last snapshot the event committed *)
+Theorem C09_committed_is_last_snapshot : ltac:(let t := type of committed_is_last_snapshot in exact t).
+Proof. exact committed_is_last_snapshot. Qed.
+Check C09_committed_is_last_snapshot.
+Print Assumptions C09_committed_is_last_snapshot.
+
+(** for any frame of any event: dying at or after the commits that precede the frame leaves the database committed at the frame, or a later snapshot of the same event *)
+Theorem C09_ack_survives_crash : ltac:(let t := type of ack_survives_crash in exact t).
+Proof. exact ack_survives_crash. Qed.
+Check C09_ack_survives_crash.
+Print Assumptions C09_ack_survives_crash.
+
+(** after allocated / claimed / released / closed / message nothing is committed any more: every crash from there on leaves the event's final database *)
+Theorem C09_ack_crash_is_final : ltac:(let t := type of ack_crash_is_final in exact t).
+Proof. exact ack_crash_is_final. Qed.
+Check C09_ack_crash_is_final.
+Print Assumptions C09_ack_crash_is_final.
+
+(** `allocated n`: the files hold the allocator's claim on n *)
+Theorem C09_allocated_survives : ltac:(let t := type of allocated_survives in exact t).
+Proof. exact allocated_survives. Qed.
+Check C09_allocated_survives.
+Print Assumptions C09_allocated_survives.
+
+(** `claimed m`: nameplate row with mailbox m and the claimer's side row *)
+Theorem C09_claimed_survives : ltac:(let t := type of claimed_survives in exact t).
+Proof. exact claimed_survives. Qed.
+Check C09_claimed_survives.
+Print Assumptions C09_claimed_survives.
+
+(** `released`: the release is on file *)
+Theorem C09_released_survives : ltac:(let t := type of released_survives in exact t).
+Proof. exact released_survives. Qed.
+Check C09_released_survives.
+Print Assumptions C09_released_survives.
+
+(** `closed`: the close is on file *)
+Theorem C09_closed_survives : ltac:(let t := type of closed_survives in exact t).
+Proof. exact closed_survives. Qed.
+Check C09_closed_survives.
+Print Assumptions C09_closed_survives.
+
+(** `message`: the message row is on file *)
+Theorem C09_message_survives : ltac:(let t := type of message_survives in exact t).
+Proof. exact message_survives. Qed.
+Check C09_message_survives.
+Print Assumptions C09_message_survives.
+
+(** non-vacuity *)
+Theorem C09_claimed_survives_applies : ltac:(let t := type of claimed_survives_applies in exact t).
+Proof. exact claimed_survives_applies. Qed.
+Check C09_claimed_survives_applies.
+Print Assumptions C09_claimed_survives_applies.
+
